@@ -68,6 +68,7 @@ package generator
 
 //@ func generator.getOverlappingStructDefinition
 //@   props C05 C13
+//@   errdrop g.lookup.Get#* only asks whether a usable method exists: an unsatisfied context is reported where that method is actually used
 //@   requires@C13 builder.GenInv(g) && builder.CtxOK(ctx) && source != nil && target != nil
 //@   assigns nothing
 //@   ensures !(source.Struct && target.Struct) ==> result == nil
